@@ -33,8 +33,8 @@ GROUPS = [
 ] + [
     P('rep_transform_explicit' + sfx, 'transform', 'h_rep_transform', tu='src/repetition.cpp', roots=['gdstk::Repetition::transform'],
       enforce='Repetition__transform', harness='harness/c11.c', models=['models/libm_contracts.h', 'models/alloc_models.h'],
-      defines={'VF_FIXED_TYPE': t, 'VF_EXPLICIT_ONLY': 1}, unwind=4, kind='bounded', timeout=1200, disjoint_unions=['Repetition'],
-      apply_loop_contracts=False, loop_contracts_for=[],
+      defines={'VF_FIXED_TYPE': t, 'VF_EXPLICIT_ONLY': 1}, unwind=4, kind='bounded', timeout=1500, disjoint_unions=['Repetition'],
+      apply_loop_contracts=False, loop_contracts_for=[], tier='thorough',
       bound='%s kind with a rotation: coordinate lists of 1..2 entries (loops unwound, unwinding assertions on), all doubles, both reflection states' % nm)
     for sfx, t, nm in [('x', 4, 'ExplicitX'), ('y', 5, 'ExplicitY')]
 ] + [
@@ -56,13 +56,26 @@ GROUPS += [
     RP('translate', 'translate', replace_extern=[]),
     RP('x_reflection', 'x_reflection', replace_extern=[]),
     RP('simple_rotate', 'simple_rotate', replace_extern=['cos', 'sin']),
-    RP('simple_scale', 'simple_scale', replace_extern=['fabs']),
+    # the unbounded variant (loop contract of contracts/robustpath_transform.ct over a symbolic number of elements) timed out
+    # after 900 s; the bounded variant below unwinds the element loop
+    RP('simple_scale', 'simple_scale', replace_extern=['fabs'], kind='bounded', unwind=4, apply_loop_contracts=False, loop_contracts_for=[],
+       defines={'VF_FABS_CONTRACT': 1, 'VF_SMALL_ELEMS': 1},
+       bound='0..2 path elements (loop unwound, unwinding assertions on); all matrices, all doubles, scale_width on and off'),
     # callers: verified against the callees' CONTRACTS (bodies dropped)
     RP('scale', 'scale', replace=[SS, 'RobustPath__translate'], replace_extern=[], loop_contracts_for=[]),
     RP('rotate', 'rotate', replace=['RobustPath__simple_rotate', 'RobustPath__translate'], replace_extern=[], loop_contracts_for=[]),
     RP('transform', 'transform', replace=[SS, 'RobustPath__x_reflection', 'RobustPath__simple_rotate', 'RobustPath__translate'],
        replace_extern=[], loop_contracts_for=[]),
 ]
+GROUPS += [
+    dict(name='fpath_transform', tu='src/flexpath.cpp', spec_headers=['spec/ghost.h', 'spec/geom_spec.h', 'spec/fpath_spec.h'],
+         models=['models/libm_contracts.h'], harness='harness/c10_fpath.c', roots=['gdstk::FlexPath::transform'],
+         entry='h_fpath_transform', enforce='FlexPath__transform', replace_extern=['cos', 'sin'], replace_extern_if_called=['fabs'], defines={'VF_FABS_CONTRACT': 1},
+         kind='bounded', unwind=4, timeout=900, tier='quick', uf_fp=True, apply_loop_contracts=False, loop_contracts_for=[],
+         bound='0..2 spine points, 0..2 path elements (loops unwound, unwinding assertions on); all doubles, both reflection states, scale_width on and off'),
+]
+GROUPS += [dict(GROUPS[-1], name='fpath_transform_11', defines={'VF_FABS_CONTRACT': 1, 'VF_FP_MAXN': 1, 'VF_FP_MAXNE': 1}, unwind=3,
+                bound='0..1 spine points, 0..1 path elements (loops unwound, unwinding assertions on); all doubles, both reflection states, scale_width on and off')]
 TRUSTED_BASE = ['clang 14 AST', 'tools/cxx2c.py lowering', 'cbmc 6.11.0 (dfcc + SAT)', 'side-car contracts; spec/geom_spec.h']
 ASSUMPTIONS = ['cos and sin and the double operations + - * are uninterpreted functions (sound over-approximation: what holds for arbitrary functions holds for IEEE arithmetic)',
                'equality with the affine map is bit-exact against one canonical evaluation order (a re-association of the floating-point operations would be reported)']
